@@ -51,6 +51,8 @@ pub mod tproto {
     pub struct TrackCross { pub track: Option<TrackRef>, pub cross: Option<TrackRef> }
     pub struct Assign { pub net: String, pub at: Option<TrackCross> }
     pub struct Instance { pub name: String, pub cell: Option<super::proto::utils::Reference>, pub loc: Option<Place>, pub reflect_horiz: bool, pub reflect_vert: bool }
+    pub struct Layout { pub name: String, pub outline: Option<Outline>, pub instances: Vec<Instance>, pub assignments: Vec<Assign>, pub cuts: Vec<TrackCross> }
+    impl Default for Layout { fn default() -> (r: Self) ensures r.name@.len() == 0, r.outline is None, r.instances@.len() == 0, r.assignments@.len() == 0, r.cuts@.len() == 0 { Layout { name: String::new(), outline: None, instances: Vec::new(), assignments: Vec::new(), cuts: Vec::new() } } }
     // prost messages derive Default: every field its type's default
     impl Default for Outline { fn default() -> (r: Self) ensures r.x@.len() == 0, r.y@.len() == 0, r.metals == 0 { Outline { x: Vec::new(), y: Vec::new(), metals: 0 } } }
     impl Default for TrackRef { fn default() -> (r: Self) ensures r.layer == 0, r.track == 0 { TrackRef { layer: 0, track: 0 } } }
@@ -73,6 +75,25 @@ impl TrackCross {
 }
 //@ item layout21utils/src/context.rs :: enum ErrorContext
 //@ end
+//@ item layout21tetris/src/stack.rs :: struct Assign
+//@ end
+impl Assign {
+    /// model of Assign::new(impl Into<String>, impl Into<TrackCross>)
+    #[verifier::external_body]
+    pub fn new(net: String, at: TrackCross) -> (r: Self) ensures r.net@ == net@, r.at == at { Assign { net, at } }
+}
+// R5: PtrList<T> (a newtype over Vec<Ptr<T>> that derefs to it) as that Vec
+//@ item layout21tetris/src/layout.rs :: struct Layout
+//@   sub R5 /PtrList<Instance>/ => Vec<Ptr<Instance>>
+//@ end
+impl Layout {
+    /// model of Layout::new: the three given fields, everything else empty
+    #[verifier::external_body]
+    pub fn new(name: String, metals: usize, outline: Outline) -> (r: Self)
+        ensures r.name@ == name@, r.metals == metals, r.outline == outline, r.instances@.len() == 0, r.assignments@.len() == 0, r.cuts@.len() == 0, r.places@.len() == 0,
+    { unimplemented!() }
+}
+pub mod outline { pub use super::Outline; }
 impl<T: HasUnits> Xy<T> {
 //@ fn layout21tetris/src/coords.rs :: impl<T: HasUnits> Xy<T> :: fn raw
 //@   ret r
@@ -89,53 +110,92 @@ impl<T: HasUnits> Xy<T> {
 //@   sub R5 /lib: &'lib Library,[^\n]*/ =>
 //@   sub R4 /\n    ctx:/ => \n    pub ctx:
 //@ end
+pub open spec fn inst_exp(g: tproto::Instance, inst: Instance) -> bool {
+    &&& g.name@ == inst.inst_name@ &&& g.reflect_vert == inst.reflect_vert &&& g.reflect_horiz == inst.reflect_horiz
+    &&& inst.loc is Abs && g.loc is Some && g.loc->0.place is Some && g.loc->0.place->0 is Abs
+    &&& g.loc->0.place->0->Abs_0.x == inst.loc->Abs_0.x.num && g.loc->0.place->0->Abs_0.y == inst.loc->Abs_0.y.num
+    &&& g.cell is Some && g.cell->0.to is Some && g.cell->0.to->0 is Local && g.cell->0.to->0->Local_0@ == (*inst.cell.v).name@
+}
+pub open spec fn outline_exp(g: tproto::Outline, o: Outline, metals: usize) -> bool { dims_eq(g.x@, o.x@) && dims_eq(g.y@, o.y@) && g.metals == metals }
+pub open spec fn cross_exp(g: tproto::TrackCross, c: TrackCross) -> bool {
+    g.track is Some && g.cross is Some && g.track->0.layer == c.track.layer && g.track->0.track == c.track.track && g.cross->0.layer == c.cross.layer && g.cross->0.track == c.cross.track
+}
+pub open spec fn assn_exp(g: tproto::Assign, a: Assign) -> bool { g.net@ == a.net@ && g.at is Some && cross_exp(g.at->0, a.at) }
 pub open spec fn dims_eq(v: Seq<i64>, p: Seq<PrimPitches>) -> bool { v.len() == p.len() && forall|i: int| 0 <= i < p.len() ==> #[trigger] v[i] == p[i].num }
 impl ProtoExporter {
 //@ fn layout21tetris/src/conv/proto.rs :: impl<'lib> ProtoExporter<'lib> :: fn export_track_ref
 //@   ret r
 //@   spec
-//|     ensures r is Ok ==> r->Ok_0.layer == track.layer && r->Ok_0.track == track.track,
+//|     ensures final(self).ctx == old(self).ctx, r is Ok ==> r->Ok_0.layer == track.layer && r->Ok_0.track == track.track,
 //@ end
 //@ fn layout21tetris/src/conv/proto.rs :: impl<'lib> ProtoExporter<'lib> :: fn export_track_cross
 //@   ret r
 //@   spec
-//|     ensures r is Ok ==> r->Ok_0.track is Some && r->Ok_0.cross is Some
-//|         && r->Ok_0.track->0.layer == cross.track.layer && r->Ok_0.track->0.track == cross.track.track
-//|         && r->Ok_0.cross->0.layer == cross.cross.layer && r->Ok_0.cross->0.track == cross.cross.track,
+//|     ensures final(self).ctx == old(self).ctx, r is Ok ==> cross_exp(r->Ok_0, *cross),
+//@ end
+//@ fn layout21tetris/src/conv/proto.rs :: impl<'lib> ProtoExporter<'lib> :: fn export_assignment
+//@   ret r
+//@   spec
+//|     ensures final(self).ctx == old(self).ctx, r is Ok ==> assn_exp(r->Ok_0, *assn),
 //@ end
 //@ fn layout21tetris/src/conv/proto.rs :: impl<'lib> ProtoExporter<'lib> :: fn export_dimension
 //@   ret r
 //@   spec
-//|     ensures r is Ok ==> r->Ok_0 == p.raw_spec(),
+//|     ensures final(self).ctx == old(self).ctx, r is Ok ==> r->Ok_0 == p.raw_spec(),
 //@ end
 //@ fn layout21tetris/src/conv/proto.rs :: impl<'lib> ProtoExporter<'lib> :: fn export_dimensions
 //@   ret r
 //@   let rv : Vec<i64>
 //@   spec
-//|     ensures r is Ok ==> r->Ok_0@.len() == p@.len() && forall|i: int| 0 <= i < p@.len() ==> #[trigger] r->Ok_0@[i] == p@[i].raw_spec(),
+//|     ensures final(self).ctx == old(self).ctx, r is Ok ==> r->Ok_0@.len() == p@.len() && forall|i: int| 0 <= i < p@.len() ==> #[trigger] r->Ok_0@[i] == p@[i].raw_spec(),
 //@   loop 1 iter it
-//|             invariant rv@.len() == it.index@, forall|i: int| 0 <= i < it.index@ ==> #[trigger] rv@[i] == p@[i].raw_spec(),
+//|             invariant self.ctx == old(self).ctx, rv@.len() == it.index@, forall|i: int| 0 <= i < it.index@ ==> #[trigger] rv@[i] == p@[i].raw_spec(),
 //@ end
 //@ fn layout21tetris/src/conv/proto.rs :: impl<'lib> ProtoExporter<'lib> :: fn export_point
 //@   ret r
 //@   spec
-//|     ensures r is Ok ==> r->Ok_0.x == p.x.raw_spec() && r->Ok_0.y == p.y.raw_spec(),
+//|     ensures final(self).ctx == old(self).ctx, r is Ok ==> r->Ok_0.x == p.x.raw_spec() && r->Ok_0.y == p.y.raw_spec(),
 //@ end
 //@ fn layout21tetris/src/conv/proto.rs :: impl<'lib> ProtoExporter<'lib> :: fn export_instance
 //@   ret r
 //@   spec
+//|     ensures final(self).ctx == old(self).ctx, r is Ok ==> inst_exp(r->Ok_0, *inst),
+//@ end
+//@ fn layout21tetris/src/conv/proto.rs :: impl<'lib> ProtoExporter<'lib> :: fn export_layout
+//@   ret r
+//@   sub R6 /for assn in &layout\.assignments \{/ => for assn in layout.assignments.iter() {
+//@   sub R6 /for cut in &layout\.cuts \{/ => for cut in layout.cuts.iter() {
+//@   spec
 //|     ensures r is Ok ==> ({
 //|         let g = r->Ok_0;
-//|         &&& g.name@ == inst.inst_name@ &&& g.reflect_vert == inst.reflect_vert &&& g.reflect_horiz == inst.reflect_horiz
-//|         &&& inst.loc is Abs && g.loc is Some && g.loc->0.place is Some && g.loc->0.place->0 is Abs
-//|         &&& g.loc->0.place->0->Abs_0.x == inst.loc->Abs_0.x.num && g.loc->0.place->0->Abs_0.y == inst.loc->Abs_0.y.num
-//|         &&& g.cell is Some && g.cell->0.to is Some && g.cell->0.to->0 is Local && g.cell->0.to->0->Local_0@ == (*inst.cell.v).name@
+//|         &&& final(self).ctx@ == old(self).ctx@ &&& g.name@ == layout.name@ &&& g.outline is Some && outline_exp(g.outline->0, layout.outline, layout.metals)
+//|         // one message per instance / assignment / cut, in order
+//|         &&& g.instances@.len() == layout.instances@.len() &&& forall|i: int| 0 <= i < layout.instances@.len() ==> inst_exp(#[trigger] g.instances@[i], *layout.instances@[i].v)
+//|         &&& g.assignments@.len() == layout.assignments@.len() &&& forall|i: int| 0 <= i < layout.assignments@.len() ==> assn_exp(#[trigger] g.assignments@[i], layout.assignments@[i])
+//|         &&& g.cuts@.len() == layout.cuts@.len() &&& forall|i: int| 0 <= i < layout.cuts@.len() ==> cross_exp(#[trigger] g.cuts@[i], layout.cuts@[i])
 //|     }),
+//@   loop 1 iter it
+//|             invariant self.ctx@ == old(self).ctx@.push(ErrorContext::Impl), playout.name@ == layout.name@, playout.outline is Some && outline_exp(playout.outline->0, layout.outline, layout.metals),
+//|                 playout.assignments@.len() == 0, playout.cuts@.len() == 0, playout.instances@.len() == it.index@, it.index@ <= layout.instances@.len(),
+//|                 forall|i: int| 0 <= i < it.index@ ==> inst_exp(#[trigger] playout.instances@[i], *layout.instances@[i].v),
+//@   loop 2 iter it
+//|             invariant self.ctx@ == old(self).ctx@.push(ErrorContext::Impl), playout.name@ == layout.name@, playout.outline is Some && outline_exp(playout.outline->0, layout.outline, layout.metals),
+//|                 playout.cuts@.len() == 0, playout.instances@.len() == layout.instances@.len(), playout.assignments@.len() == it.index@, it.index@ <= layout.assignments@.len(),
+//|                 forall|i: int| 0 <= i < layout.instances@.len() ==> inst_exp(#[trigger] playout.instances@[i], *layout.instances@[i].v),
+//|                 forall|i: int| 0 <= i < it.index@ ==> assn_exp(#[trigger] playout.assignments@[i], layout.assignments@[i]),
+//@   loop 3 iter it
+//|             invariant self.ctx@ == old(self).ctx@.push(ErrorContext::Impl), playout.name@ == layout.name@, playout.outline is Some && outline_exp(playout.outline->0, layout.outline, layout.metals),
+//|                 playout.instances@.len() == layout.instances@.len(), playout.assignments@.len() == layout.assignments@.len(), playout.cuts@.len() == it.index@, it.index@ <= layout.cuts@.len(),
+//|                 forall|i: int| 0 <= i < layout.instances@.len() ==> inst_exp(#[trigger] playout.instances@[i], *layout.instances@[i].v),
+//|                 forall|i: int| 0 <= i < layout.assignments@.len() ==> assn_exp(#[trigger] playout.assignments@[i], layout.assignments@[i]),
+//|                 forall|i: int| 0 <= i < it.index@ ==> cross_exp(#[trigger] playout.cuts@[i], layout.cuts@[i]),
+//@   before /^        Ok\(playout\)$/
+//|         proof { assert(self.ctx@ =~= old(self).ctx@); }
 //@ end
 //@ fn layout21tetris/src/conv/proto.rs :: impl<'lib> ProtoExporter<'lib> :: fn export_outline
 //@   ret r
 //@   spec
-//|     ensures r is Ok ==> dims_eq(r->Ok_0.x@, outline.x@) && dims_eq(r->Ok_0.y@, outline.y@) && r->Ok_0.metals == metals,
+//|     ensures final(self).ctx == old(self).ctx, r is Ok ==> outline_exp(r->Ok_0, *outline, metals),
 //@ end
 }
 
@@ -181,6 +241,19 @@ impl<T> Place<T> {
 //@   sub R5 /cell_map: HashMap<String, Ptr<Cell>>,[^\n]*/ => pub cell_map: CellMap,
 //@   sub R4 /\n    ctx: Vec<ErrorContext>,[^\n]*/ => \n    pub ctx: Vec<ErrorContext>,
 //@ end
+pub open spec fn inst_imp(i: Instance, g: tproto::Instance, m: CellMap) -> bool {
+    &&& i.inst_name@ == g.name@ &&& i.reflect_horiz == g.reflect_horiz &&& i.reflect_vert == g.reflect_vert
+    &&& g.loc is Some && g.loc->0.place is Some && g.loc->0.place->0 is Abs
+    &&& i.loc is Abs && i.loc->Abs_0.x.num == g.loc->0.place->0->Abs_0.x && i.loc->Abs_0.y.num == g.loc->0.place->0->Abs_0.y
+    &&& i.loc->Abs_0.x.dir == Dir::Horiz && i.loc->Abs_0.y.dir == Dir::Vert
+    &&& g.cell is Some && g.cell->0.to is Some && g.cell->0.to->0 is Local && m.lookup(g.cell->0.to->0->Local_0@) == Some(i.cell)
+}
+pub open spec fn cross_imp(c: TrackCross, g: tproto::TrackCross) -> bool {
+    g.track is Some && g.cross is Some && c.track.layer == g.track->0.layer && c.track.track == g.track->0.track && c.cross.layer == g.cross->0.layer && c.cross.track == g.cross->0.track
+}
+pub open spec fn assn_imp(a: Assign, g: tproto::Assign) -> bool { a.net@ == g.net@ && g.at is Some && cross_imp(a.at, g.at->0) }
+/// the imported outline has exactly the message's steps, is a valid staircase, and keeps the metal count
+pub open spec fn outline_imp(o: Outline, m: usize, g: tproto::Outline) -> bool { dims_eq(g.x@, o.x@) && dims_eq(g.y@, o.y@) && outline_valid(o.x@, o.y@) && m == g.metals }
 impl ProtoLibImporter {
     #[verifier::external_body]
     fn fail<T, M>(&self, msg: M) -> (r: LayoutResult<T>) ensures r is Err { Err(LayoutError { }) }
@@ -193,7 +266,7 @@ impl ProtoLibImporter {
 //@   ret r
 //@   sub R5 /let cellname: &str = match pref_to/ => let cellname: &String = match pref_to
 //@   spec
-//|     ensures final(self).cell_map == old(self).cell_map,
+//|     ensures final(self).cell_map == old(self).cell_map, final(self).ctx == old(self).ctx,
 //|         r is Ok ==> pinst.cell is Some && pinst.cell->0.to is Some && pinst.cell->0.to->0 is Local
 //|             && old(self).cell_map.lookup(pinst.cell->0.to->0->Local_0@) == Some(r->Ok_0),
 //|         // a reference to an undefined cell, an external or a missing reference is an error, not a crash
@@ -204,59 +277,90 @@ impl ProtoLibImporter {
 //@   ret r
 //@   sub R7 /ErrorContext::Instance\(inst_name\.clone\(\)\)/ => ErrorContext::Instance(String::new())
 //@   spec
-//|     ensures r is Ok ==> ({
-//|         let i = *r->Ok_0.v;
-//|         &&& i.inst_name@ == pinst.name@ &&& i.reflect_horiz == pinst.reflect_horiz &&& i.reflect_vert == pinst.reflect_vert
-//|         &&& pinst.loc is Some && pinst.loc->0.place is Some && pinst.loc->0.place->0 is Abs
-//|         &&& i.loc is Abs && i.loc->Abs_0.x.num == pinst.loc->0.place->0->Abs_0.x && i.loc->Abs_0.y.num == pinst.loc->0.place->0->Abs_0.y
-//|         &&& i.loc->Abs_0.x.dir == Dir::Horiz && i.loc->Abs_0.y.dir == Dir::Vert
-//|         &&& pinst.cell is Some && pinst.cell->0.to is Some && pinst.cell->0.to->0 is Local && old(self).cell_map.lookup(pinst.cell->0.to->0->Local_0@) == Some(i.cell)
-//|     }),
+//|     ensures final(self).cell_map == old(self).cell_map, r is Ok ==> final(self).ctx@ == old(self).ctx@ && inst_imp(*r->Ok_0.v, *pinst, old(self).cell_map),
+//@   before /^        Ok\(inst\)$/
+//|         proof { assert(self.ctx@ =~= old(self).ctx@); }
+//@   spec
 //|         // no location, or a relative placement, is an error rather than a crash
 //|         (pinst.loc is None || pinst.loc->0.place is None || pinst.loc->0.place->0 is Rel) ==> r is Err,
 //@ end
 //@ fn layout21tetris/src/conv/proto.rs :: impl ProtoLibImporter :: fn import_track_ref
 //@   ret r
 //@   spec
-//|     ensures r is Ok <==> (pref.layer >= 0 && pref.track >= 0), r is Ok ==> r->Ok_0.layer == pref.layer && r->Ok_0.track == pref.track,
+//|     ensures final(self).cell_map == old(self).cell_map, final(self).ctx == old(self).ctx, r is Ok <==> (pref.layer >= 0 && pref.track >= 0), r is Ok ==> r->Ok_0.layer == pref.layer && r->Ok_0.track == pref.track,
 //@ end
 //@ fn layout21tetris/src/conv/proto.rs :: impl ProtoLibImporter :: fn import_track_cross
 //@   ret r
 //@   spec
-//|     ensures r is Ok ==> pcross.track is Some && pcross.cross is Some
-//|         && r->Ok_0.track.layer == pcross.track->0.layer && r->Ok_0.track.track == pcross.track->0.track
-//|         && r->Ok_0.cross.layer == pcross.cross->0.layer && r->Ok_0.cross.track == pcross.cross->0.track,
+//|     ensures final(self).cell_map == old(self).cell_map, final(self).ctx == old(self).ctx, r is Ok ==> cross_imp(r->Ok_0, *pcross),
 //|         // a missing sub-message is an error, not a crash
 //|         (pcross.track is None || pcross.cross is None) ==> r is Err,
 //@ end
 //@ fn layout21tetris/src/conv/proto.rs :: impl ProtoLibImporter :: fn import_prim_pitches
 //@   ret r
 //@   spec
-//|     ensures r is Ok ==> r->Ok_0.dir == dir && r->Ok_0.num == pt,
+//|     ensures final(self).cell_map == old(self).cell_map, final(self).ctx == old(self).ctx, r is Ok ==> r->Ok_0.dir == dir && r->Ok_0.num == pt,
 //@ end
 //@ fn layout21tetris/src/conv/proto.rs :: impl ProtoLibImporter :: fn import_prim_pitches_list
 //@   ret r
 //@   let rv : Vec<PrimPitches>
 //@   spec
-//|     ensures r is Ok ==> dims_eq(pts@, r->Ok_0@) && forall|i: int| 0 <= i < pts@.len() ==> (#[trigger] r->Ok_0@[i]).dir == dir,
+//|     ensures final(self).cell_map == old(self).cell_map, final(self).ctx == old(self).ctx, r is Ok ==> dims_eq(pts@, r->Ok_0@) && forall|i: int| 0 <= i < pts@.len() ==> (#[trigger] r->Ok_0@[i]).dir == dir,
 //@   loop 1 iter it
-//|             invariant rv@.len() == it.index@, forall|i: int| 0 <= i < it.index@ ==> (#[trigger] rv@[i]).num == pts@[i] && rv@[i].dir == dir,
+//|             invariant self.cell_map == old(self).cell_map, self.ctx == old(self).ctx, rv@.len() == it.index@, forall|i: int| 0 <= i < it.index@ ==> (#[trigger] rv@[i]).num == pts@[i] && rv@[i].dir == dir,
 //@ end
 //@ fn layout21tetris/src/conv/proto.rs :: impl ProtoLibImporter :: fn import_xy_prim_pitches
 //@   ret r
 //@   spec
-//|     ensures r is Ok ==> r->Ok_0.x.dir == Dir::Horiz && r->Ok_0.y.dir == Dir::Vert && r->Ok_0.x.num == pt.x && r->Ok_0.y.num == pt.y,
+//|     ensures final(self).cell_map == old(self).cell_map, final(self).ctx == old(self).ctx, r is Ok ==> r->Ok_0.x.dir == Dir::Horiz && r->Ok_0.y.dir == Dir::Vert && r->Ok_0.x.num == pt.x && r->Ok_0.y.num == pt.y,
 //@ end
 //@ fn layout21tetris/src/conv/proto.rs :: impl ProtoLibImporter :: fn import_outline
 //@   ret r
 //@   spec
-//|     ensures r is Ok ==> ({
-//|         let (o, m) = r->Ok_0;
-//|         // the imported outline has exactly the message's steps, is a valid staircase, and keeps the metal count
-//|         &&& dims_eq(poutline.x@, o.x@) &&& dims_eq(poutline.y@, o.y@) &&& outline_valid(o.x@, o.y@) &&& m == poutline.metals
-//|     }),
+//|     ensures final(self).cell_map == old(self).cell_map, final(self).ctx == old(self).ctx, r is Ok ==> outline_imp(r->Ok_0.0, r->Ok_0.1, *poutline),
 //|         // an invalid outline (lengths differ, empty, negative, wrong monotonicity) is an error
 //|         (poutline.x@.len() != poutline.y@.len() || poutline.x@.len() == 0 || poutline.metals < 0) ==> r is Err,
+//@ end
+//@ fn layout21tetris/src/conv/proto.rs :: impl ProtoLibImporter :: fn import_assignment
+//@   ret r
+//@   spec
+//|     ensures final(self).cell_map == old(self).cell_map, final(self).ctx == old(self).ctx, r is Ok ==> assn_imp(r->Ok_0, *passn),
+//|         passn.at is None ==> r is Err,
+//@ end
+//@ fn layout21tetris/src/conv/proto.rs :: impl ProtoLibImporter :: fn import_layout
+//@   ret r
+//@   sub R6 /for inst in &playout\.instances \{/ => for inst in playout.instances.iter() {
+//@   sub R6 /for s in &playout\.assignments \{/ => for s in playout.assignments.iter() {
+//@   sub R6 /for txt in &playout\.cuts \{/ => for txt in playout.cuts.iter() {
+//@   spec
+//|     ensures final(self).cell_map == old(self).cell_map,
+//|         r is Ok ==> ({
+//|             let l = r->Ok_0;
+//|             &&& final(self).ctx@ == old(self).ctx@ &&& l.name@ == playout.name@ &&& playout.outline is Some && outline_imp(l.outline, l.metals, playout.outline->0)
+//|             // one instance / assignment / cut per message, in order; nothing else
+//|             &&& l.instances@.len() == playout.instances@.len() &&& forall|i: int| 0 <= i < playout.instances@.len() ==> inst_imp(*(#[trigger] l.instances@[i]).v, playout.instances@[i], old(self).cell_map)
+//|             &&& l.assignments@.len() == playout.assignments@.len() &&& forall|i: int| 0 <= i < playout.assignments@.len() ==> assn_imp(#[trigger] l.assignments@[i], playout.assignments@[i])
+//|             &&& l.cuts@.len() == playout.cuts@.len() &&& forall|i: int| 0 <= i < playout.cuts@.len() ==> cross_imp(#[trigger] l.cuts@[i], playout.cuts@[i])
+//|             &&& l.places@.len() == 0
+//|         }),
+//|         playout.outline is None ==> r is Err,
+//@   loop 1 iter it
+//|             invariant self.cell_map == old(self).cell_map, self.ctx@ == old(self).ctx@.push(ErrorContext::Impl), layout.name@ == playout.name@, playout.outline is Some && outline_imp(layout.outline, layout.metals, playout.outline->0),
+//|                 layout.places@.len() == 0, layout.assignments@.len() == 0, layout.cuts@.len() == 0, layout.instances@.len() == it.index@, it.index@ <= playout.instances@.len(),
+//|                 forall|i: int| 0 <= i < it.index@ ==> inst_imp(*(#[trigger] layout.instances@[i]).v, playout.instances@[i], self.cell_map),
+//@   loop 2 iter it
+//|             invariant self.cell_map == old(self).cell_map, self.ctx@ == old(self).ctx@.push(ErrorContext::Impl), layout.name@ == playout.name@, playout.outline is Some && outline_imp(layout.outline, layout.metals, playout.outline->0),
+//|                 layout.places@.len() == 0, layout.cuts@.len() == 0, layout.instances@.len() == playout.instances@.len(), layout.assignments@.len() == it.index@, it.index@ <= playout.assignments@.len(),
+//|                 forall|i: int| 0 <= i < playout.instances@.len() ==> inst_imp(*(#[trigger] layout.instances@[i]).v, playout.instances@[i], self.cell_map),
+//|                 forall|i: int| 0 <= i < it.index@ ==> assn_imp(#[trigger] layout.assignments@[i], playout.assignments@[i]),
+//@   loop 3 iter it
+//|             invariant self.cell_map == old(self).cell_map, self.ctx@ == old(self).ctx@.push(ErrorContext::Impl), layout.name@ == playout.name@, playout.outline is Some && outline_imp(layout.outline, layout.metals, playout.outline->0),
+//|                 layout.places@.len() == 0, layout.instances@.len() == playout.instances@.len(), layout.assignments@.len() == playout.assignments@.len(), layout.cuts@.len() == it.index@, it.index@ <= playout.cuts@.len(),
+//|                 forall|i: int| 0 <= i < playout.instances@.len() ==> inst_imp(*(#[trigger] layout.instances@[i]).v, playout.instances@[i], self.cell_map),
+//|                 forall|i: int| 0 <= i < playout.assignments@.len() ==> assn_imp(#[trigger] layout.assignments@[i], playout.assignments@[i]),
+//|                 forall|i: int| 0 <= i < it.index@ ==> cross_imp(#[trigger] layout.cuts@[i], playout.cuts@[i]),
+//@   before /^        Ok\(layout\)$/
+//|         proof { assert(self.ctx@ =~= old(self).ctx@); }
 //@ end
 }
 proof fn canary_dims(v: Seq<i64>, p: Seq<PrimPitches>) requires dims_eq(v, p), p.len() == 2 ensures false {}
